@@ -99,3 +99,11 @@ Proof. decide equality; apply string_dec. Defined.
 Definition strip_mismatches (cs : list (nat * locs * list requirement * list cattr)) : list nat :=
   flat_map (fun c => match c with (i, L, reqs, fields) =>
      if list_eq_dec cattr_eq_dec (strip_fields L reqs) fields then [] else [i] end) cs.
+
+(* ---- tier A: SchemeExpr.In of every scheme of HTTPEndpointExpr.Requirements ---- *)
+Definition ins_eq_dec : forall a b : list (list (string * string)), {a = b} + {a <> b}.
+Proof. apply list_eq_dec, list_eq_dec. decide equality; apply string_dec. Defined.
+
+Definition ins_mismatches (cs : list (nat * locs * list requirement * list (list (string * string)))) : list nat :=
+  flat_map (fun c => match c with (i, L, reqs, ins) =>
+     if ins_eq_dec (endpoint_ins L reqs) ins then [] else [i] end) cs.
